@@ -66,7 +66,7 @@ def run(script, seed):
             if e['t'] is None:
                 raise RuntimeError('queue primitive by a task outside the script: %r' % e['op'])
             it = e['item']
-            if e['op'] in ('put', 'get'):
+            if e['op'] in ('put', 'get', 'put_enter'):
                 it = 'NIL' if it is None else w._pkt_token(1, it)
             log.append({'t': e['t'], 'op': e['op'], 'item': it if it is not None else ''})
         hub.primlog = None
@@ -75,16 +75,37 @@ def run(script, seed):
                  'closed': snap['ss'][0]['closed'], 'closing': snap['ss'][0]['closing'],
                  'intable': sid in w.server.sockets,
                  'ev': [e[5:] for e in snap['ev'][0] if e.startswith('disc:')],
-                 'deliv': [d[0] for d in snap['deliv'][0]], 'sent': w.sent.get(1, 0)}
+                 'deliv': [d[0] for d in snap['deliv'][0]], 'sent': len(w.accepted.get(1, []))}
         facts['nproc'] = p
         return {'log': log, 'final': final}, facts
     finally:
         w.close()
 
 
+# contention families: the same few tasks racing, under many schedules
+FAMILIES = [
+    [['poll', 'poll'], ['send', 'send', 'send']],          # two consumers, one burst
+    [['poll', 'poll', 'send', 'send']],
+    [['send', 'send'], ['poll', 'poll', 'send']],
+    [['poll'], ['send', 'disc']],                          # close racing a send and a poll
+    [['poll', 'disc', 'send']],
+    [['poll', 'postclose', 'send']],
+    [['send', 'send', 'poll', 'poll', 'disc']],
+    [['poll', 'disc', 'postclose']],                       # two end causes and a consumer
+    [['disc', 'disc', 'poll']],
+]
+
+
 def scripts(seed, n):
+    """n random scripts plus every contention family (the two-consumer ones three times): each
+    is run under its own schedule seed, so a family is explored under n/3 .. n schedules over
+    a few runs."""
     rng = random.Random(seed)
-    return [gen_script(rng) for _ in range(n)]
+    out = [gen_script(rng) for _ in range(n)]
+    reps = max(1, n // 12)
+    for i, fam in enumerate(FAMILIES):
+        out += [fam] * (reps * (3 if i < 3 else 1))
+    return out
 
 
 # ---- websocket session (EioQueueFineWs) -------------------------------------------------------
@@ -173,7 +194,7 @@ def run_ws(script, seed):
             if e['t'] is None:
                 raise RuntimeError('queue primitive by a task outside the script: %r' % e['op'])
             it = e['item']
-            if e['op'] in ('put', 'get'):
+            if e['op'] in ('put', 'get', 'put_enter'):
                 it = 'NIL' if it is None else w._pkt_token(1, it)
             log.append({'t': e['t'], 'op': e['op'], 'item': it if it is not None else ''})
         hub.primlog = None
@@ -182,7 +203,7 @@ def run_ws(script, seed):
                  'closed': snap['ss'][0]['closed'], 'closing': snap['ss'][0]['closing'],
                  'intable': sid in w.server.sockets,
                  'ev': [e[5:] for e in snap['ev'][0] if e.startswith('disc:')],
-                 'deliv': [d[0] for d in snap['deliv'][0]], 'sent': w.sent.get(1, 0)}
+                 'deliv': [d[0] for d in snap['deliv'][0]], 'sent': len(w.accepted.get(1, []))}
         return {'log': log, 'final': final}, facts
     finally:
         w.close()
